@@ -256,6 +256,26 @@ func main() {
 		}
 	}
 
+	// 4b. native coverage-guided fuzzing (thorough tier of C07, C08, C09)
+	if target, ok := fuzzTargets[id]; ok && tier == "thorough" && replay == "" && nViol == 0 {
+		execs, crashText, trouble := runNativeFuzz(root, scratch, goEnv, target)
+		merged.FuzzExecs += execs
+		merged.Note(fmt.Sprintf("native go fuzzing of %s: %d executions", target, execs))
+		if trouble != "" {
+			harnessTrouble = append(harnessTrouble, trouble)
+		}
+		if crashText != nil {
+			nViol++
+			rp := map[string]interface{}{"property": id, "check": fuzzReplayCheck[id], "sig": "native-fuzz", "source": *crashText, "note": "found by native coverage-guided fuzzing (" + target + ")", "expected": "", "observed": "", "seed": seed}
+			b, _ := json.MarshalIndent(rp, "", " ")
+			dstDir := filepath.Join(root, "found", id)
+			os.MkdirAll(dstDir, 0o755)
+			dst := filepath.Join(dstDir, fmt.Sprintf("native-fuzz-%016x.json", ev.Hash(*crashText)))
+			os.WriteFile(dst, b, 0o644)
+			fmt.Printf("VIOLATION property=%s replay=%s\n  found by native fuzzing: %q\n", id, dst, clip(*crashText, 200))
+		}
+	}
+
 	// 5. evidence
 	if replay == "" {
 		writeEvidence(root, id, tier, seed, merged, nViol, time.Since(start).Seconds(), shards, harnessTrouble)
@@ -278,6 +298,71 @@ func main() {
 		exit(2)
 	}
 	exit(0)
+}
+
+var fuzzTargets = map[string]string{"C07": "FuzzC07Interp", "C08": "FuzzC08Front", "C09": "FuzzC09Lex"}
+var fuzzReplayCheck = map[string]string{"C07": "crash", "C08": "text", "C09": "lex"}
+
+// runNativeFuzz runs `go test -fuzz` for one target under a time budget.  It
+// returns the number of executions, the crashing input (if any) and a
+// description of harness trouble (if any).
+func runNativeFuzz(root, scratch string, goEnv []string, target string) (int64, *string, string) {
+	fuzztime := os.Getenv("VERIF_FUZZTIME")
+	if fuzztime == "" {
+		fuzztime = "120s"
+	}
+	dir := filepath.Join(root, "harness")
+	corpus := filepath.Join(dir, "checks", "testdata", "fuzz", target)
+	before := map[string]bool{}
+	if es, err := os.ReadDir(corpus); err == nil {
+		for _, e := range es {
+			before[e.Name()] = true
+		}
+	}
+	cmd := exec.Command("go", "test", "-tags", "verif", "-run", "^$", "-fuzz", "^"+target+"$", "-fuzztime", fuzztime, "./checks", "-test.fuzzcachedir", filepath.Join(scratch, "fuzzcache"))
+	cmd.Dir = dir
+	cmd.Env = append(goEnv, "GOFLAGS=-mod=mod")
+	out, err := cmd.CombinedOutput()
+	os.WriteFile(filepath.Join(scratch, "fuzz.log"), out, 0o644)
+	var execs int64
+	for _, ln := range strings.Split(string(out), "\n") {
+		if i := strings.Index(ln, "execs: "); i >= 0 {
+			var n int64
+			fmt.Sscanf(ln[i+len("execs: "):], "%d", &n)
+			if n > execs {
+				execs = n
+			}
+		}
+	}
+	if err == nil {
+		return execs, nil, ""
+	}
+	// a crasher is written to testdata/fuzz/<target>/<hash>; move it out of the tree
+	var crash *string
+	if es, rerr := os.ReadDir(corpus); rerr == nil {
+		for _, e := range es {
+			if before[e.Name()] {
+				continue
+			}
+			p := filepath.Join(corpus, e.Name())
+			b, _ := os.ReadFile(p)
+			os.Remove(p)
+			lines := strings.SplitN(string(b), "\n", 3)
+			if len(lines) >= 2 && strings.HasPrefix(lines[1], "string(") {
+				lit := strings.TrimSuffix(strings.TrimPrefix(strings.TrimSpace(lines[1]), "string("), ")")
+				if v, uerr := strconv.Unquote(lit); uerr == nil {
+					crash = &v
+				}
+			}
+		}
+		if rest, _ := os.ReadDir(corpus); len(rest) == 0 {
+			os.Remove(corpus)
+		}
+	}
+	if crash != nil {
+		return execs, crash, ""
+	}
+	return execs, nil, "native fuzzing failed without a crasher file:\n" + tail(string(out), 1500)
 }
 
 func sanitize(s string) string {
